@@ -17,6 +17,5 @@ INVARIANT AlphabetInv
 INVARIANT FitsInv
 INVARIANT RefuteLength
 INVARIANT RefuteEnds
-INVARIANT RefuteInplacePure
-INVARIANT RefuteInplaceFresh
+INVARIANT RefuteInplace
 CHECK_DEADLOCK FALSE
